@@ -239,6 +239,8 @@ def fault_configs(tier):
         # element types whose MOVE operations may throw (relocation while growing, shifting, the temporary of emplace)
         ('ft_s2_NTRM_stdlike', 'NTRM', 'stdlike', [('small', 2, 'u32')]),
         ('ft_v_NTRM_amcled', 'NTRM', 'amcled', [('vector', 0, 'u32')]),
+        # ... and one whose move constructor is noexcept while its move assignment may throw
+        ('ft_s2_NTRA_stdlike', 'NTRA', 'stdlike', [('small', 2, 'u32')]),
     ]
     t = [
         ('ft_v_TR_withrealloc', 'TR', 'withrealloc', [('vector', 0, 'u32')]),
@@ -247,6 +249,8 @@ def fault_configs(tier):
         ('ft_f2_TR', 'TR', 'stdlike', [('fixed', 2)]),
         ('ft_s2_NTRM_amcled', 'NTRM', 'amcled', [('small', 2, 'u32')]),
         ('ft_f3_NTRM', 'NTRM', 'stdlike', [('fixed', 3)]),
+        ('ft_f3_NTRA', 'NTRA', 'stdlike', [('fixed', 3)]),
+        ('ft_v_NTRA_amcled', 'NTRA', 'amcled', [('vector', 0, 'u32')]),
         ('ft_v_NTRM_withrealloc', 'NTRM', 'withrealloc', [('vector', 0, 'u32')]),
         ('ft_p_s2_NTR_amcled', 'NTR', 'amcled', [('small', 2, 'u32')] * 2),
     ]
@@ -265,7 +269,7 @@ def fault_configs(tier):
     return out
 
 
-SWAP2_OPS = ('{"swap2", "ctorDefault", "ctorCountVal", "ctorFromVector", "pushBack", "popBack", "clear", "reserve", "reserveBig", '
+SWAP2_OPS = ('{"swap2", "ctorDefault", "ctorCountVal", "ctorCountBig", "ctorFromVector", "pushBack", "popBack", "clear", "reserve", "reserveBig", '
              '"shrinkToFit", "destroy", "relocate", "eq", "assignMove", "swap", "iterate"}')
 
 
@@ -644,7 +648,8 @@ def suite_setfault(tier, seed):
                  SetCfg('sf_sm2_NTR_stdlike', 'NTR', 'stdlike', [(S, 'Cmp', 2)]),
                  SetCfg('sf_sm2flat_NTR', 'NTR', 'amcled', [(S, 'Cmp', 2, 'flat')]),
                  # element type whose MOVE operations may throw
-                 SetCfg('sf_fl_NTRM_stdlike', 'NTRM', 'stdlike', [(F, 'Cmp')])]
+                 SetCfg('sf_fl_NTRM_stdlike', 'NTRM', 'stdlike', [(F, 'Cmp')]),
+                 SetCfg('sf_fl_NTRA_amcled', 'NTRA', 'amcled', [(F, 'Cmp')])]
         cfgs2 = [SetCfg('sf_p_fl_NTR', 'NTR', 'stdlike', [(F, 'Cmp')] * 2),
                  SetCfg('sf_p_flx_NTR', 'NTR', 'amcled', [(F, 'Cmp'), (F, 'Cmp2')]),
                  SetCfg('sf_p_sm2_NTR', 'NTR', 'stdlike', [(S, 'Cmp', 2)] * 2)]
@@ -758,8 +763,7 @@ def suite_memalgo(tier, seed):
         with open(os.path.join(md, 'MCMemAlgo.cfg'), 'w') as f:
             f.write('SPECIFICATION Spec\nCONSTANT MaxN = %d\nINVARIANT Sane\nCHECK_DEADLOCK FALSE\nACTION_CONSTRAINT Export\n' % maxn)
         outp = os.path.join(md, 'export.txt')
-        rc, _, dt = vlib.tlc(md, 'MCMemAlgo', 'MCMemAlgo.cfg', workers=4, outfile=outp, timeout=900, heap='4g')
-        edges, tail = vlib.parse_export(outp)
+        rc, edges, tail, dt = vlib.tlc_export(md, 'MCMemAlgo', 'MCMemAlgo.cfg', outp, workers=4, timeout=900, heap='4g')
         counts = vlib.parse_counts(tail)
         if rc != 0 or counts is None or 'No error has been found' not in tail:
             raise InfraError('MODEL-ERROR: MCMemAlgo failed\n' + tail[-2000:])
@@ -1164,7 +1168,7 @@ def suite_words(tier, seed):
 SUITE_FN = {}
 PROP_SUITES = {
     'C01': ['vec'], 'C02': ['vec', 'swap2', 'fault', 'sets', 'setfault', 'words'], 'C03': ['sets'], 'C04': ['sets'], 'C05': ['vec', 'sets', 'words'],
-    'C06': ['vec', 'swap2', 'fault', 'sets', 'setfault'], 'C07': ['vec', 'words'], 'C08': ['limit'], 'C09': ['fault', 'setfault', 'words'],
+    'C06': ['vec', 'swap2', 'fault', 'sets', 'setfault'], 'C07': ['vec', 'swap2', 'words'], 'C08': ['limit'], 'C09': ['fault', 'setfault', 'words'],
     'C10': ['vec'], 'C11': ['sets'], 'C12': ['sets'], 'C13': ['swap2'], 'C14': ['vec', 'swap2', 'sets', 'static'], 'C18': ['vec', 'growth', 'swap2'],
     'C19': ['sets', 'bigsets'], 'C20': ['vec', 'sets', 'readers'], 'C15': ['memalgo'], 'C17': ['static'], 'C16': ['matrix'],
 }
